@@ -141,9 +141,22 @@ fn execute_branch_for_set_op<'a>(
                     let right_keys: std::collections::HashSet<Vec<u64>> =
                         right_rows.iter().map(row_to_key).collect();
                     if set_op.all {
+                        // Bag semantics: a row occurring m times on the left and n times
+                        // on the right is kept min(m, n) times.
+                        let mut right_counts: std::collections::HashMap<Vec<u64>, usize> =
+                            std::collections::HashMap::new();
+                        for row in &right_rows {
+                            *right_counts.entry(row_to_key(row)).or_insert(0) += 1;
+                        }
                         left_rows
                             .into_iter()
-                            .filter(|row| right_keys.contains(&row_to_key(row)))
+                            .filter(|row| match right_counts.get_mut(&row_to_key(row)) {
+                                Some(remaining) if *remaining > 0 => {
+                                    *remaining -= 1;
+                                    true
+                                }
+                                _ => false,
+                            })
                             .collect()
                     } else {
                         let mut seen: std::collections::HashSet<Vec<u64>> =
@@ -161,9 +174,22 @@ fn execute_branch_for_set_op<'a>(
                     let right_keys: std::collections::HashSet<Vec<u64>> =
                         right_rows.iter().map(row_to_key).collect();
                     if set_op.all {
+                        // Bag semantics: a row occurring m times on the left and n times
+                        // on the right is kept max(m - n, 0) times.
+                        let mut right_counts: std::collections::HashMap<Vec<u64>, usize> =
+                            std::collections::HashMap::new();
+                        for row in &right_rows {
+                            *right_counts.entry(row_to_key(row)).or_insert(0) += 1;
+                        }
                         left_rows
                             .into_iter()
-                            .filter(|row| !right_keys.contains(&row_to_key(row)))
+                            .filter(|row| match right_counts.get_mut(&row_to_key(row)) {
+                                Some(remaining) if *remaining > 0 => {
+                                    *remaining -= 1;
+                                    false
+                                }
+                                _ => true,
+                            })
                             .collect()
                     } else {
                         let mut seen: std::collections::HashSet<Vec<u64>> =
